@@ -64,3 +64,8 @@ Proof.
   unfold bytes; rewrite !Forall_forall; intros H x Hx; apply H.
   rewrite <- (firstn_skipn n l). apply in_or_app; right; exact Hx.
 Qed.
+
+(* linear-time reverse for the executable definitions (List.rev is quadratic) *)
+Definition rrev {A} (l : list A) : list A := rev_append l [].
+Lemma rrev_rev {A} (l : list A) : rrev l = rev l.
+Proof. unfold rrev. symmetry. apply rev_alt. Qed.
